@@ -1,5 +1,5 @@
 """C05 -- the problem handed to the solver is exactly the declared model."""
-from . import pepsolve, wrappers, translate, state, common
+from . import pepsolve, wrappers, translate, state, common, translprog
 
 LEVEL = "other"
 EXPLANATION = ("Discovery of the containers that hold the declared model (by the kind of object appended to them) and proof that the solve root "
@@ -22,6 +22,8 @@ def run(ctx):
     wrappers.r_cmp(ctx)
     translate.r_keykinds(ctx)
     translate.r_transl(ctx)
+    nt = translprog.r_translators(ctx)
+    ctx.floor("translator programs unrolled", nt, 22)
     wrappers.r_lmienc(ctx)
     wrappers.r_mainvars(ctx)
     wrappers.r_psdstore(ctx)
